@@ -38,15 +38,19 @@ CHECKS = {
                 note=TRUST + 'That the compile-time predicate is total and equals the documented formula is a trait, not decidable by a function contract: not claimed.', ref='5 (C06)', tech=H),
     'C11': dict(text='Function contracts (goto-instrument --dfcc --enforce-contract, callees replaced by their contracts) on stdx::cmp_equal/not_equal/less/greater/less_equal/'
                      'greater_equal and in_range: equal to the mathematical relation for all values of each type pair; checked_int_pow<uintmax_t>: loop contract proving that no '
-                     'multiplication wraps and no division by zero happens on any path (guarded products; own loop VCs on the int-blast/z3 route).',
-                note=TRUST + 'NOT decided: value == base^exp, product, root, long double evaluation, compile-time classification (representable_in, is_integer, ...).', ref='5 (C11)',
-                tech='CBMC function contracts via goto-instrument --dfcc (enforce + replace-call-with-contract); loop-contract VCs generated by ll2c for the SMT route'),
-    'C12': dict(text='Function contracts with loop contracts (invariant + decreases) enforced per function by goto-instrument --dfcc, callees replaced by contracts: add_mod, sub_mod, '
-                     'half_mod_odd exact residues without wrap-around; decompose; bool_sign; as_int; increment; absolute_diff; gcd; multiplicity; pow_mod, miller_rabin, '
-                     'x_squared_plus_t_mod_n, double/increment_strong_lucas_index, find_strong_lucas_element: result ranges, memory safety (bits[64]) and every callee precondition.',
-                note=TRUST + 'ASSUMED, not proved: mul_mod/pow_mod return the exact residue; Baillie-PSW exact on 64 bits; find_prime_factor returns a prime; gcd/is_perfect_square/jacobi '
-                             'functional correctness; D.mag < 2^31. Type-level mag<a>()*mag<b>() == mag<a*b>() is N/A.', ref='5 (C12)',
-                tech='CBMC function + loop contracts via goto-instrument --dfcc --enforce-contract --replace-call-with-contract --apply-loop-contracts on un-promoted clang IR'),
+                     'multiplication wraps and no division by zero happens on any path, and (lemma-instance obligation) that the outcome is OK exactly when base^exp fits and the value is then base^exp.',
+                note=TRUST + 'The arithmetic lemmas of the exactness obligation are checked by Lean 4 + Mathlib in the same run. NOT decided: checked_int_pow<intmax_t>, product, root, long double evaluation, '
+                             'compile-time classification (representable_in, is_integer, ...).', ref='5 (C11), 10.1',
+                tech='CBMC function contracts via goto-instrument --dfcc (enforce + replace-call-with-contract); loop-contract VCs generated by ll2c for the SMT route; '
+                     'nonlinear arithmetic as uninterpreted functions + instances of Lean-checked lemmas'),
+    'C12': dict(text='Function contracts with loop contracts (invariant + decreases), callees replaced by contracts: add_mod, sub_mod, half_mod_odd, mul_mod, pow_mod return the EXACT residue without '
+                     'wrap-around; gcd, is_perfect_square, multiplicity are exact; decompose; bool_sign; as_int; increment; absolute_diff; miller_rabin, x_squared_plus_t_mod_n, '
+                     'double/increment_strong_lucas_index, find_strong_lucas_element, strong_lucas, baillie_psw, find_pollard_rho_factor, find_prime_factor, jacobi_symbol: result ranges, '
+                     'memory safety (bits[64]), structure and every callee precondition.',
+                note=TRUST + 'mul_mod, pow_mod, gcd, is_perfect_square, multiplicity: nonlinear arithmetic enters as instances of lemmas that Lean 4 + Mathlib check in the same run (DESIGN 10.1). '
+                             'ASSUMED, not proved: Baillie-PSW exact on 64 bits; jacobi_symbol_positive_numerator is the Jacobi symbol; Pollard rho returns divisors; D.mag < 2^31. '
+                             'Type-level mag<a>()*mag<b>() == mag<a*b>() is N/A.', ref='5 (C12), 10.1',
+                tech='CBMC function + loop contracts (goto-instrument --dfcc, and ll2c-generated VCs); nonlinear arithmetic as uninterpreted functions + instances of Lean-checked lemmas'),
     'C14': dict(text='Quantity * Quantity, / (unblock_int_div), int_pow<2>, int_pow<3>, same-unit quotient collapsing to a raw number equal the raw operator on the stored values '
                      'whenever the raw expression is defined (overflow predicates of the abstract machine), for all values; sqrt: std::sqrt called once on the stored value (trusted stub).',
                 note=TRUST + 'result unit as a type, integer-division guard and as_raw_number rejections are compile-time: not claimed. Floating * and / bit-exactness only in the thorough tier.',
